@@ -4,7 +4,7 @@
    c -> d; an odd cycle; a self-attacker; two independent 2-cycles; a 5-argument example.
    Run:  cd coq && coqc -Q theories Crusta tests/MaxExtStatementTests.v   (about 1 min) *)
 From Crusta Require Import Spec.AF Spec.SemFacts Sat.Cnf Sat.Prog Model.Encoders Model.Graph Model.Solvers.
-From Crusta Require Import Proofs.MaxExtPref.
+From Crusta Require Import Proofs.MaxExtPref Proofs.MaxExtIdeal.
 Import ListNotations.
 Open Scope prog_scope.
 
@@ -26,6 +26,7 @@ Definition cc (F : af) : comp := {| c_ids := args F; c_af := F |}.
 Definition fuel0 := 200.
 
 (* gr_start holds on the test frameworks *)
+(* gr_start / gr_least hold on the test frameworks *)
 Definition gr_start_b (F : af) : bool :=
   cob F (grounded (view_of_af F)) && grb F (grounded (view_of_af F)).
 Eval vm_compute in (forallb gr_start_b Fs).
@@ -33,7 +34,7 @@ Eval vm_compute in (forallb gr_start_b Fs).
 (* T1 / T3 : Done, preferred, calls within the bound *)
 Definition t1 (b : bool) e F : bool :=
   match run CadicalLike (pr_max_in_cc (bf_oracle b) 10 fuel0 e (cc F)) with
-  | Done L s => prb F L && Nat.leb (calls s) (pr_bound e F)
+  | Done L s => prb F L && Nat.ltb (calls s) (pr_bound e F)
   | _ => false
   end.
 Eval vm_compute in (forallb (fun F => forallb (fun e => t1 false e F && t1 true e F) encs) Fs).
@@ -43,9 +44,9 @@ Definition attacks_allb (F : af) (la ce : list nat) : bool :=
   forallb (fun a => existsb (fun b => memb b ce) (attackers F a)) la.
 Definition t2 (b : bool) e F la sc : bool :=
   match run CadicalLike (pr_ds_in_cc (bf_oracle b) 10 fuel0 e (cc F) la sc) with
-  | Done (true, None) s => skepb PR F la && Nat.leb (calls s) (pr_bound e F)
+  | Done (true, None) s => skepb PR F la && Nat.ltb (calls s) (pr_bound e F)
   | Done (false, Some ce) s =>
-      negb (skepb PR F la) && negb (meets la ce) && Nat.leb (calls s) (pr_bound e F) &&
+      negb (skepb PR F la) && negb (meets la ce) && Nat.ltb (calls s) (pr_bound e F) &&
       (if sc then admb F ce && (prb F ce || attacks_allb F la ce) else prb F ce)
   | _ => false
   end.
@@ -61,14 +62,14 @@ Eval vm_compute in
 (* T4 *)
 Definition t4 (b : bool) e F : bool :=
   match run CadicalLike (id_ext_for_cc (bf_oracle b) 10 fuel0 e F) with
-  | Done l s => idlb F l
+  | Done l s => idlb F l && Nat.ltb (calls s) (id_bound e F)
   | _ => false
   end.
 Eval vm_compute in (forallb (fun F => forallb (fun e => t4 false e F && t4 true e F) encs) Fs).
 Definition t5 (b : bool) e F la : bool :=
   match run CadicalLike (id_cred_for_cc (bf_oracle b) 10 fuel0 e F la) with
-  | Done (true, Some ext) s => credb ID F la && idlb F ext && meets la ext
-  | Done (false, None) s => negb (credb ID F la)
+  | Done (true, Some ext) s => credb ID F la && idlb F ext && meets la ext && Nat.ltb (calls s) (id_bound e F)
+  | Done (false, None) s => negb (credb ID F la) && Nat.ltb (calls s) (id_bound e F)
   | _ => false
   end.
 Eval vm_compute in
